@@ -1,1 +1,66 @@
 // Kani contract harnesses for /repo/arrow-array/src/builder/boolean_builder.rs (child module: sees private items via super::)
+use super::*;
+#[path = "/verif/kani/support/spec.rs"]
+mod spec;
+use spec::*;
+use crate::Array;
+
+// Contract (C01): BooleanBuilder after append_value(a); append_null(); append_slice([b, c]);
+// append_option(o) holds the model [Some(a), None, Some(b), Some(c), o]: len() == 5, value bit i == the
+// value on valid slots, validity bit i set <=> slot i is Some.
+// @unit name=bbuilder_state_model props=C01 kind=bounded bound=schedule_of_4_appends_5_slots fns=BooleanBuilder::append_value,BooleanBuilder::append_null,BooleanBuilder::append_slice,BooleanBuilder::append_option,BooleanBuilder::values_slice,BooleanBuilder::validity_slice
+#[kani::proof]
+#[kani::unwind(10)]
+#[kani::stub(alloc::fmt::format, stub_format)]
+fn bbuilder_state_model() {
+    let v: [bool; 4] = kani::any();
+    let last_some: bool = kani::any();
+    let mut b = BooleanBuilder::with_capacity(8);
+    b.append_value(v[0]);
+    b.append_null();
+    b.append_slice(&v[1..3]);
+    b.append_option(if last_some { Some(v[3]) } else { None });
+    let m = [Some(v[0]), None, Some(v[1]), Some(v[2]), if last_some { Some(v[3]) } else { None }];
+    assert!(b.len() == 5);
+    let vals = b.values_slice();
+    let bm = b.validity_slice().unwrap();
+    let mut i = 0;
+    while i < 5 {
+        match m[i] {
+            Some(x) => { assert!(bit(vals, i) == x); assert!(bit(bm, i)); }
+            None => assert!(!bit(bm, i)),
+        }
+        i += 1;
+    }
+    kani::cover!(last_some && v[3]);
+    kani::cover!(!last_some);
+}
+
+// Contract (C01, stretch): finish() after the same schedule returns a BooleanArray equal to the model.
+// @unit name=bbuilder_finish_model props=C01 kind=bounded bound=schedule_of_4_appends_5_slots fns=BooleanBuilder::finish tier=thorough timeout=900 mem=10 note=not_confirmed_at_checkpoint
+#[kani::proof]
+#[kani::unwind(10)]
+#[kani::stub(alloc::fmt::format, stub_format)]
+fn bbuilder_finish_model() {
+    let v: [bool; 4] = kani::any();
+    let last_some: bool = kani::any();
+    let mut b = BooleanBuilder::with_capacity(8);
+    b.append_value(v[0]);
+    b.append_null();
+    b.append_slice(&v[1..3]);
+    b.append_option(if last_some { Some(v[3]) } else { None });
+    let m = [Some(v[0]), None, Some(v[1]), Some(v[2]), if last_some { Some(v[3]) } else { None }];
+    let a = b.finish();
+    assert!(a.len() == 5);
+    assert!(a.null_count() == if last_some { 1 } else { 2 });
+    let mut i = 0;
+    while i < 5 {
+        match m[i] {
+            Some(x) => { assert!(a.is_valid(i)); assert!(a.value(i) == x); }
+            None => assert!(a.is_null(i)),
+        }
+        i += 1;
+    }
+    kani::cover!(last_some);
+    std::mem::forget(a);
+}
